@@ -178,6 +178,12 @@ def run(ctx):
         b = fx.body("clap_builder::output::help_template::HelpTemplate::" + fn_)
         fl = [c for c in tree_calls(b, r"Iterator::filter$")]
         okf = any(cb.calls_to(rx) for c in fl for cb in closure_bodies(fx, c))
+        if not okf:
+            # loop form: `for x in items { if !should_show(x) { continue } .. }` — every other use of the item sits on the visible edge
+            for sc_ in b.calls_to(rx):
+                item = expr(b, sc_.args[-1])
+                uses = [y for y in b.calls() if y is not sc_ and y.bb in b.reachable(0) and any(expr(b, a) == item for a in y.args)]
+                okf = bool(uses) and all(has_bool(b, y.bb, "T", r"^" + re.escape(expr(b, sc_.dest)) + r"$") for y in uses)
         res.check(okf, "R12.2", "hide|param-filter|" + fn_, b.where(), "%s filters its items with %s" % (fn_, rx.rstrip("$")),
                   "%s iterates its argument list without %s" % (fn_, rx.rstrip("$")))
     # write_args: every insertion into the ordered map (what gets printed) is inside the filtered loop
